@@ -39,15 +39,18 @@ Qed.
 Definition inv (s : st) : Prop := ust s = ust_at (cur s).
 
 Lemma rewind_save s s1 ext :
-  sec s1 = sec s ++ ext -> rewind s1 (save s) = mkSt (cur s) (sec s) (alt s1) (ust s).
+  sec s1 = sec s ++ ext -> rewind s1 (save s) = mkSt (cur s) (sec s) (alt s1) (ust s) (memo s1).
 Proof. intros H. unfold rewind, save. rewrite H, firstn_app_exact. reflexivity. Qed.
 
 Lemma rewind_save0 s s1 :
-  sec s1 = sec s -> rewind s1 (save s) = mkSt (cur s) (sec s) (alt s1) (ust s).
+  sec s1 = sec s -> rewind s1 (save s) = mkSt (cur s) (sec s) (alt s1) (ust s) (memo s1).
 Proof. intros H. apply rewind_save with (ext := []). now rewrite app_nil_r. Qed.
 
+Lemma alt_rewind s c : alt (rewind s c) = alt s.
+Proof. destruct c as [[? ?] ?]; reflexivity. Qed.
+
 Lemma next_some s t : nth_error toks (cur s) = Some t ->
-  next toks s = (Some t, mkSt (S (cur s)) (sec s) (alt s) (on_tok t (ust s))).
+  next toks s = (Some t, mkSt (S (cur s)) (sec s) (alt s) (on_tok t (ust s)) (memo s)).
 Proof. intros H; unfold next; now rewrite H. Qed.
 
 Lemma next_none s : nth_error toks (cur s) = None -> next toks s = (None, s).
